@@ -129,6 +129,67 @@ fn judge(acc: &mut Acc, site: &str, src: &str, binds: &[(&str, V)], exp: &Exp) {
     }
 }
 
+// ---- case folding that changes the length of the text --------------------------------------
+
+/// characters whose lower-case form has another UTF-8 length (KELVIN SIGN 3 -> 1, ANGSTROM SIGN
+/// 3 -> 2, capital sharp s 3 -> 2, dotted capital I 2 -> 3) next to the forms they fold to
+const FOLD: [char; 10] = ['k', '\u{212A}', 's', 'ß', '\u{1E9E}', '\u{130}', 'i', '\u{307}', 'å', '\u{212B}'];
+
+fn fold_strings(maxlen: u32) -> Vec<String> {
+    let mut out = vec![String::new()];
+    let mut layer = vec![String::new()];
+    for _ in 0..maxlen {
+        let mut next = Vec::new();
+        for s in &layer {
+            for c in FOLD {
+                let mut t = s.clone();
+                t.push(c);
+                next.push(t);
+            }
+        }
+        out.extend(next.iter().cloned());
+        layer = next;
+    }
+    out
+}
+
+pub struct CaseFold {
+    hay: Vec<String>,
+    needles: Vec<String>,
+}
+impl CaseFold {
+    pub fn new(t: Tier) -> CaseFold {
+        CaseFold { hay: fold_strings(t.pick(2, 3)), needles: fold_strings(2) }
+    }
+    pub fn size(&self) -> u64 {
+        (self.hay.len() * self.needles.len()) as u64
+    }
+    pub fn run(&self, idx: u64, acc: &mut Acc) {
+        let h = &self.hay[idx as usize / self.needles.len()];
+        let n = &self.needles[idx as usize % self.needles.len()];
+        let b = [("s", V::Str(h.clone())), ("n", V::Str(n.clone()))];
+        let (hl, nl) = (h.to_lowercase(), n.to_lowercase());
+        let flips = (n.len() > h.len()) != (nl.len() > hl.len());
+        for (site, f, want) in [
+            ("containsI", "containsI", r_contains(&hl, &nl)),
+            ("startsWithI", "startsWithI", r_starts(&hl, &nl)),
+            ("endsWithI", "endsWithI", r_ends(&hl, &nl)),
+            ("contains", "contains", r_contains(h, n)),
+            ("startsWith", "startsWith", r_starts(h, n)),
+            ("endsWith", "endsWith", r_ends(h, n)),
+        ] {
+            let site = if flips { format!("{} length-order-changes-under-folding", site) } else { site.to_string() };
+            judge(acc, &site, &format!("s.{}(n)", f), &b, &Exp::Val(V::Bool(want)));
+            judge(acc, &format!("{} literal", site), &format!("{}.{}({})", crate::val::str_lit(h), f, crate::val::str_lit(n)), &[], &Exp::Val(V::Bool(want)));
+        }
+        judge(acc, "toLower", "s.toLower()", &b, &Exp::Val(V::Str(hl.clone())));
+        judge(acc, "toUpper", "s.toUpper()", &b, &Exp::Val(V::Str(h.to_uppercase())));
+        if flips {
+            acc.nontrivial(&idx);
+        }
+    }
+}
+
 // ---- strings x needles ------------------------------------------------------------------
 
 pub struct StrPairs {
@@ -668,7 +729,9 @@ pub fn replay_families(t: Tier) -> Vec<Family<'static>> {
     let r: &'static Regexes = Box::leak(Box::new(Regexes::new(t)));
     let m: &'static Math = Box::leak(Box::new(Math::new(t)));
     let s: &'static Shapes = Box::leak(Box::new(Shapes::new(t)));
+    let cf: &'static CaseFold = Box::leak(Box::new(CaseFold::new(t)));
     vec![
+        Family::new("case-folding", cf.size(), move |i, a| cf.run(i, a)),
         Family::new("string-pairs", p.size(), move |i, a| p.run(i, a)),
         Family::new("string-unary", u.size(), move |i, a| u.run(i, a)),
         Family::new("regex", r.size(), move |i, a| r.run(i, a)),
@@ -679,7 +742,7 @@ pub fn replay_families(t: Tier) -> Vec<Family<'static>> {
 
 pub fn run(t: Tier) -> i32 {
     let mut rep = Report::new(ID, t, "exploration");
-    rep.rule = "string-pairs: all strings up to length 3/4 over {a,b,A,blank,é,É,ß,İ} x all needles up to length 2 (empty, overlapping, absent, multi-byte, case-folding) for contains*/startsWith*/endsWith*/split/rsplit/replace/remove/trim*Matches against naive byte-window references; string-unary: toLower/toUpper/trim*/splitWhiteSpace/size and splitAt at every offset in [-2,len+2] and extreme ints; regex: 14 patterns (valid, invalid, oversized) x all strings up to length 2/3 x 5 replacement templates against the regex crate called directly; math: abs/sqrt/log/lg/ceil/floor/round over the numeric grid (bound and literal) and pow over all pairs of a 100-value grid against exact i128 / IEEE references; shapes: every documented function x every argument tuple of arity 0..3/4 over a one-value-per-type pool in its documented call form must fail unless the shape is documented. Non-trivial = outcome fixed by the property; distinct by index".to_string();
+    rep.rule = "case-folding: all strings up to length 2/3 x all needles up to length 2 over {k, KELVIN SIGN, s, ß, capital ß, dotted capital I, i, combining dot, å, ANGSTROM SIGN} (lower-casing changes the UTF-8 length, so the order of the two lengths can flip) for the six containment functions in bound and literal form and toLower/toUpper; string-pairs: all strings up to length 3/4 over {a,b,A,blank,é,É,ß,İ} x all needles up to length 2 (empty, overlapping, absent, multi-byte, case-folding) for contains*/startsWith*/endsWith*/split/rsplit/replace/remove/trim*Matches against naive byte-window references; string-unary: toLower/toUpper/trim*/splitWhiteSpace/size and splitAt at every offset in [-2,len+2] and extreme ints; regex: 14 patterns (valid, invalid, oversized) x all strings up to length 2/3 x 5 replacement templates against the regex crate called directly; math: abs/sqrt/log/lg/ceil/floor/round over the numeric grid (bound and literal) and pow over all pairs of a 100-value grid against exact i128 / IEEE references; shapes: every documented function x every argument tuple of arity 0..3/4 over a one-value-per-type pool in its documented call form must fail unless the shape is documented. Non-trivial = outcome fixed by the property; distinct by index".to_string();
     for f in replay_families(t) {
         rep.run_family(f);
     }
